@@ -3,6 +3,8 @@ package sim
 import (
 	"bytes"
 	"fmt"
+	"github.com/plgd-dev/go-coap/v3/message"
+	"github.com/plgd-dev/go-coap/v3/message/codes"
 	"sync"
 	"time"
 
@@ -198,7 +200,10 @@ func c07Run(e *Env, tlsShim bool) {
 	var gateOnce sync.Once
 	openGate := func() { gateOnce.Do(func() { close(gate) }) }
 	e.OnCleanup(openGate)
-	router.DefaultHandle(mux.HandlerFunc(func(_ mux.ResponseWriter, r *mux.Message) {
+	// some applications build their answer as a plain message.Message value and put it into the response with
+	// pool.Message.SetMessage (public API): the pooled object that carried it is used for a later incoming frame
+	rawAnswers := t.Chance(1, 4)
+	router.DefaultHandle(mux.HandlerFunc(func(rw mux.ResponseWriter, r *mux.Message) {
 		ri := Snapshot(r.Message)
 		e.mu.Lock()
 		handled = append(handled, got{ri.Code, ri.Token, ri.Opts, ri.Payload})
@@ -207,6 +212,10 @@ func c07Run(e *Env, tlsShim bool) {
 		e.Notef("handler got %d.%02d tok=%x pl=%d", ri.Code>>5, ri.Code&31, ri.Token, len(ri.Payload))
 		if busy && first {
 			<-gate
+		}
+		if rawAnswers && ri.Code >= 1 && ri.Code <= 4 {
+			e.Probe("handler.answersWithPlainMessageValue")
+			rw.Message().SetMessage(message.Message{Code: codes.Content, Token: r.Token(), Payload: []byte("raw")})
 		}
 	}))
 	topts := []tcp.Option{
@@ -426,29 +435,27 @@ func c07Run(e *Env, tlsShim bool) {
 			break
 		}
 	}
-	// Completeness. While the connection stays open every completely supplied message must have been
-	// delivered. Once the oversize header has closed the connection, messages that were supplied in the
-	// very same read as that header may die with it; those supplied in earlier phases were already handled.
+	// Completeness: every completely supplied message that precedes the oversize frame must be delivered - also the
+	// ones that arrived in the very same read as the offending header. (They are in the receive queue when the
+	// connection is closed; unrepaired code let the runtime choose between them and the done signal.)
 	mustHave := len(want)
 	if over != nil && released >= limit {
-		mustHave = 0
+		sameRead := false
 		for _, f := range frames {
-			if f.oversize || f.start+len(f.raw) > releasedBeforeLast {
+			if f.oversize {
 				break
 			}
-			if !f.signal && !f.filtered {
-				mustHave++
+			if f.start+len(f.raw) > releasedBeforeLast && !f.signal && !f.filtered {
+				sameRead = true
 			}
 		}
-	}
-	if mustHave < len(want) {
-		// messages queued for the handler and the connection's done signal become ready together:
-		// which of them the reader loop's select takes is the runtime's choice
-		e.MarkRacy()
-		e.Probe("oversize.sameReadAsEarlierMessages")
+		if sameRead {
+			e.MarkRacy()
+			e.Probe("oversize.sameReadAsEarlierMessages")
+		}
 	}
 	if len(have) < mustHave && !(closed() && over == nil) {
-		e.Violate("C07.R1", "message-not-delivered", "%d messages delivered, %d complete deliverable messages were supplied while the connection was open", len(have), mustHave)
+		e.Violate("C07.R1", "message-not-delivered", "%d messages delivered, %d complete deliverable messages were supplied ahead of anything that closes the connection", len(have), mustHave)
 	}
 	// R2: every Ping that was completely supplied before the oversize frame got exactly one Pong with its token
 	out := a.TakeOut()
